@@ -1,15 +1,47 @@
-"""Sidecar contracts for the client callback dispatch (C12) - bounded stand-in only."""
+"""Sidecar contracts for the client cache and callback dispatch (C12)."""
 from pyvc.native import *      # noqa: F401,F403
 
 CONTEXT_FILE = 'frappy/client/__init__.py'
 SOURCES = ['frappy/client/__init__.py', 'frappy/errors.py']
 GHOSTS = ['cb_calls']
+INLINE = ['ProxyClient.updateValue']
+UFS = {'IMPORTED': (['val', 'val'], 'val', None)}
 ASSUMPTIONS = [
-    'no deductive contract: the verifier models containers by value, so iterating a list that is mutated during the iteration'
+    'A3/A6/A7 as for the other properties',
+    'SecopClient.updateValue is proved with ProxyClient.callback abstract (it records (key, callback name, arguments) in the ghost log'
+    ' cb_calls and does not raise) and CacheItem(...) abstract (an entry object with value / timestamp / readerror / datatype)',
+    'for ProxyClient.callback itself there is no deductive contract: the verifier models containers by value, so iterating a list that is mutated during the iteration'
     ' (the failure mode at stake) is not distinguishable from iterating a snapshot; the contract below is evaluated natively',
     'the end-to-end part of C12 (cache mirrors the node over a connection: reader thread, reconnects) is outside any sequential contract',
 ]
-CLASSES = {}
+CLASSES = {
+    'DataType': dict(abstract=True, fields={}),
+    'Exception': dict(fields={}, bases=[]),
+    'CacheItem': dict(fields={'value': 'any', 'timestamp': 'any', 'readerror': 'any', 'datatype': 'any'}),
+    'ProxyClient': dict(fields={'callbacks': 'dict', 'log': 'any'}),
+    'SecopClient': dict(bases=['ProxyClient'], fields={'modules': 'dict:dict:dict:dict:DataType', 'cache': 'dict[pair]:CacheItem', 'callbacks': 'dict', 'log': 'any'}),
+}
+
+
+def DatatypeOf(c, module, param):
+    return c.modules[module]['parameters'][param]['datatype']
+
+
+def Known(c, module, param):
+    return module in c.modules and 'parameters' in c.modules[module] and param in c.modules[module]['parameters'] \
+        and 'datatype' in c.modules[module]['parameters'][param]
+
+
+def SixCalls(new, module, param, entry, value, timestamp, readerror):
+    """every level (node, module, parameter) is called back exactly once per message and per callback kind, in this order,
+    with the cache entry resp. the imported value"""
+    return (len(new) == 6
+            and nth(new[0], 0) is None and nth(new[0], 1) == 'updateItem' and same_object(nth(nth(new[0], 2, 'tuple'), 4), entry)
+            and nth(new[1], 0) == module and nth(new[1], 1) == 'updateItem' and same_object(nth(nth(new[1], 2, 'tuple'), 4), entry)
+            and nth(new[2], 0) == (module, param) and nth(new[2], 1) == 'updateItem' and same_object(nth(nth(new[2], 2, 'tuple'), 4), entry)
+            and nth(new[3], 0) is None and nth(new[3], 1) == 'updateEvent' and same_value(nth(nth(new[3], 2, 'tuple'), 4), value)
+            and nth(new[4], 0) == module and nth(new[4], 1) == 'updateEvent' and same_value(nth(nth(new[4], 2, 'tuple'), 4), value)
+            and nth(new[5], 0) == (module, param) and nth(new[5], 1) == 'updateEvent' and same_value(nth(nth(new[5], 2, 'tuple'), 4), value))
 
 
 def EachOnce(registered, new):
@@ -18,6 +50,33 @@ def EachOnce(registered, new):
 
 
 CONTRACTS = [
+    dict(key='iface::DataType.import_value', file=None, func=None, signature='self, value', serves=[], trusted=True, requires=[],
+         ensures={'imported': 'same_value(result, IMPORTED(self, value))'}, raises={}),
+    dict(key='new::CacheItem', file=None, func=None, signature='value, timestamp=None, readerror=None, datatype=None', serves=[],
+         trusted=True, requires=[],
+         ensures={'fields': 'same_value(result.value, value) and same_value(result.timestamp, timestamp)'
+                            ' and same_value(result.readerror, readerror) and same_value(result.datatype, datatype)'},
+         raises='never', result_type='CacheItem', result_fresh=True),
+    dict(key='ProxyClient.callback[abstract]', file=None, func=None, packed_args=True, serves=[], trusted=True, requires=[],
+         ghost_modifies=['cb_calls'], ensures={'logged': 'cb_calls == old(cb_calls) + [(nth(args, 0), nth(args, 1), args)]'},
+         raises='never'),
+    dict(key='SecopClient.callback', file=None, func=None, packed_args=True, serves=[], trusted=True, requires=[],
+         ghost_modifies=['cb_calls'], ensures={'logged': 'cb_calls == old(cb_calls) + [(nth(args, 0), nth(args, 1), args)]'},
+         raises='never'),
+    dict(key='SecopClient.updateValue', file='frappy/client/__init__.py', func='SecopClient.updateValue', serves=['C12'],
+         self_type='SecopClient', params={'module': 'str', 'param': 'str'},
+         requires=['inv(self)', 'Known(self, module, param)', 'readerror is None or is_instance_of(readerror, Exception)'],
+         modifies=['cache'], ghost_modifies=['cb_calls'], check_frame=False,
+         ensures={'cached': '(module, param) in self.cache',
+                  'entry_value': 'implies(readerror is None, same_value(self.cache[(module, param)].value,'
+                                 ' IMPORTED(DatatypeOf(self, module, param), value)))',
+                  'entry_error': 'implies(readerror is not None, same_value(self.cache[(module, param)].value, value)'
+                                 ' and same_object(self.cache[(module, param)].readerror, readerror))',
+                  'entry_time': 'same_value(self.cache[(module, param)].timestamp, timestamp)',
+                  'others_kept': 'dict_same_except(self.cache, old(self.cache), (module, param))',
+                  'callbacks': 'SixCalls(cb_calls[len(old(cb_calls)):], module, param, self.cache[(module, param)],'
+                               ' self.cache[(module, param)].value, timestamp, readerror)'},
+         raises={'import_failed': 'readerror is None', 'cache_untouched': "unchanged('cache')", 'no_callback': 'cb_calls == old(cb_calls)'}),
     dict(key='ProxyClient.callback', vc=False, file='frappy/client/__init__.py', func='ProxyClient.callback', serves=['C12'],
          self_type='ProxyClient', requires=[],
          ensures={'each_once': 'EachOnce(registered_before, cb_calls[len(old(cb_calls)):])',
